@@ -1455,9 +1455,9 @@ class SpaceManager(SharedSpaceOperations):
         define = True
         for space in self._get_subs(cells.parent, skip_self=False):
             c = space.cells[cells.name]
-            if (c is not cells and c.is_defined() and
-                    self.get_deriv_bases(c, defined_only=True)[0] is cells):
-                continue   # Skip when c's base is not cells
+            if c is not cells and (c.is_defined() or self.get_deriv_bases(
+                    c, defined_only=True)[0] is not cells):
+                continue   # Skip when c is not derived from cells
             space.clear_subs_rootitems()
             space.cells[cells.name].on_set_property(
                 flags, define, func, enable_cache
